@@ -13,6 +13,30 @@ import WmModel.Lemmas.ReqReplyTerm
 namespace Wm.ReqReply
 open Wm.Lts
 
+/-! ## concrete runs used by the non-vacuity examples below -/
+
+def n1 : HOut := ⟨"r1", none, false⟩
+def n2 : HOut := ⟨"r2", some "boom", false⟩
+
+/-- two concurrent requests on the shared topic; both notifications reach both listeners -/
+def demoShared : List Action :=
+  [.newReq, .newReq, .process .ok 1 n2 .ok, .process .ok 0 n1 .ok,
+   .deliver 0 0, .deliver 0 1, .deliver 1 0, .deliver 1 1,
+   .l 0 .recv, .l 0 .recv, .l 0 .send, .l 1 .recv, .l 1 .send, .l 1 .recv, .c 0 .recv, .c 1 .recv]
+
+/-- the D12 interleaving on the code as it is: two replies for one request (redelivery after a Nack), the caller
+    reads nothing; the listener sits at the second send with a full channel; the caller cancels; the listener
+    finishes on its own steps only: channel closed, callback once -/
+def demoFull : List Action :=
+  [.newReq, .process .ok 0 n2 .ok, .process .ok 0 n1 .ok, .deliver 0 0, .deliver 0 1,
+   .l 0 .recv, .l 0 .send, .l 0 .recv, .c 0 .cancel]
+
+def demoFinish : List Action := [.l 0 .sendCtx, .l 0 .ctx, .l 0 .cancel, .l 0 .close, .l 0 .finish]
+
+theorem demoFull_reach : ∃ s l, Reach (sys true false) s ∧ exec (sys true false) (init false) demoFull = some s ∧
+    s.ls[0]? = some l ∧ l.ctx ≠ .live ∧ l.buf.length = 1 :=
+  ⟨_, _, reach_of_exec _ Reach.init demoFull rfl, rfl, rfl, by decide, by decide⟩
+
 /-! ## replies reach only their requester -/
 
 /-- **replies_only_own**: every reply that was ever put into a caller's reply channel (still buffered, or already
@@ -104,6 +128,13 @@ theorem ack_nack_table (a : Bool) (pre : Pre) (op : Nat) (o : HOut) (p : PubRes)
   obtain ⟨res, err, bad⟩ := o
   cases pre <;> cases p <;> cases a <;> cases err <;> simp [command, onCommandProcessed]
 
+/-! non-vacuity: AckCommandErrors off, the handler returns an error: reply with result and error text, then Nack;
+    AckCommandErrors on: the same reply, then Ack; a swallowed publish failure still follows the table -/
+example : command false .ok 3 n2 .ok = [.publishCall ⟨3, "r2", some "boom", false⟩, .publishRet true, .nack] := rfl
+example : command true .ok 3 n2 .ok = [.publishCall ⟨3, "r2", some "boom", false⟩, .publishRet true, .ack] := rfl
+example : command false .ok 3 n1 .failedHandled = [.publishCall ⟨3, "r1", none, false⟩, .publishRet false, .ack] := rfl
+example : command true .noOpId 3 n1 .ok = [.nack] := rfl
+
 theorem settles_exactly_once (a : Bool) (pre : Pre) (op : Nat) (o : HOut) (p : PubRes) :
     ((command a pre op o p).filter Eff.isSettle).length = 1 := by
   obtain ⟨res, err, bad⟩ := o
@@ -124,6 +155,11 @@ theorem ack_after_reply_published (a : Bool) (pre : Pre) (op : Nat) (o : HOut) (
   all_goals (try (simp [Eff.isSettle] at hs))
   all_goals (try (simp at hp))
   all_goals (exact ⟨0, 1, by simp⟩)
+
+/-! non-vacuity: the hypotheses hold for the Ack at position 2 of a real effect list -/
+example : ∃ j k b, j < k ∧ k < 2 ∧ (command true .ok 0 n2 .ok)[j]? = some (.publishCall (notifOf 0 n2)) ∧
+    (command true .ok 0 n2 .ok)[k]? = some (.publishRet b) ∧ (Eff.ack = .ack → b = true ∨ PubRes.ok = .failedHandled) :=
+  ack_after_reply_published true .ok 0 n2 .ok 2 .ack rfl rfl (Or.inl rfl)
 
 /-- a failing reply `Publish` nacks the command whatever `AckCommandErrors` says … -/
 theorem reply_publish_failure_nacks (a : Bool) (op : Nat) (o : HOut) :
@@ -273,6 +309,16 @@ theorem listener_terminates (a : Bool) (s : St) (h : Reach (sys true a) s) (i : 
   have hg := finished_listener_is_good true a s' (reach_of_exec _ h run he) i l' hl' hd
   exact ⟨hg.1, hg.2.1, hg.2.2.2.1⟩
 
+/-! non-vacuity: the hypotheses of `listener_terminates` hold in the state after `demoFull` (context ended, reply channel full,
+    listener at its second send, caller not reading); its conclusion applied to the continuation `demoFinish` (five listener
+    steps, no caller step) gives: finished, channel closed, callback once -/
+example : ∃ s l s' l', Reach (sys true false) s ∧ s.ls[0]? = some l ∧ l.ctx ≠ .live ∧
+    exec (sys true false) s demoFinish = some s' ∧ s'.ls[0]? = some l' ∧ l'.pc = .done ∧
+    (demoFinish.filter (isL 0)).length + mu l' ≤ mu l + 2 * (demoFinish.filter (isDeliver 0)).length ∧
+    l'.chanClosed = true ∧ l'.finishedCalls = 1 := by
+  obtain ⟨s, l, hr, _, hl, hc, _⟩ := demoFull_reach
+  refine ⟨_, _, _, _, reach_of_exec _ Reach.init demoFull rfl, rfl, by decide, rfl, rfl, by decide, by decide, by decide, by decide⟩
+
 /-! ### the channel is closed exactly once, the callback runs exactly once (counting the steps themselves) -/
 
 theorem isClose_isL {i : Nat} {x : Action} (h : isClose i x = true) : ∃ j, x = .l j .close ∧ i = j := by
@@ -408,31 +454,14 @@ theorem closed_once_finished_once (fixed a : Bool) (i : Nat) (run : List Action)
 
 /-! ## non-vacuity: concrete runs -/
 
-def n1 : HOut := ⟨"r1", none, false⟩
-def n2 : HOut := ⟨"r2", some "boom", false⟩
-
-/-- two concurrent requests on the shared topic; both notifications reach both listeners; each caller ends up with
-    exactly its own reply (with result and error text), the foreign notification is filtered out and acked -/
-def demoShared : List Action :=
-  [.newReq, .newReq, .process .ok 1 n2 .ok, .process .ok 0 n1 .ok,
-   .deliver 0 0, .deliver 0 1, .deliver 1 0, .deliver 1 1,
-   .l 0 .recv, .l 0 .recv, .l 0 .send, .l 1 .recv, .l 1 .send, .l 1 .recv, .c 0 .recv, .c 1 .recv]
-
+/-- in `demoShared` each caller ends up with exactly its own reply (with result and error text), the foreign notification
+    is filtered out and acked -/
 example : ∃ s l0 l1, exec (sys true false) (init false) demoShared = some s ∧
     s.ls[0]? = some l0 ∧ s.ls[1]? = some l1 ∧
     l0.got = [.result 0 "r1" none] ∧ l1.got = [.result 1 "r2" (some "boom")] ∧ l0.acked = 2 ∧ l1.acked = 2 ∧
     (s.invs.map (·.effs)) = [[.publishCall ⟨1, "r2", some "boom", false⟩, .publishRet true, .nack],
                              [.publishCall ⟨0, "r1", none, false⟩, .publishRet true, .ack]] :=
   ⟨_, _, _, rfl, rfl, rfl, by decide, by decide, by decide, by decide, by decide⟩
-
-/-- the D12 interleaving on the code as it is: two replies for one request (redelivery after a Nack), the caller
-    reads nothing; the listener sits at the second send with a full channel; the caller cancels; the listener
-    finishes on its own steps only: channel closed, callback once -/
-def demoFull : List Action :=
-  [.newReq, .process .ok 0 n2 .ok, .process .ok 0 n1 .ok, .deliver 0 0, .deliver 0 1,
-   .l 0 .recv, .l 0 .send, .l 0 .recv, .c 0 .cancel]
-
-def demoFinish : List Action := [.l 0 .sendCtx, .l 0 .ctx, .l 0 .cancel, .l 0 .close, .l 0 .finish]
 
 example : ∃ s l, exec (sys true false) (init false) demoFull = some s ∧ s.ls[0]? = some l ∧
     l.ctx ≠ .live ∧ l.buf.length = 1 ∧ l.pc = .send (.result 0 "r1" none) ∧ act true s (.l 0 .send) = none :=
